@@ -351,7 +351,7 @@ class TempProject:
 def run_mos(args, cwd, timeout=60, env=None, stdin=None):
     """Runs the real mos binary. Returns dict(rc, out, err, timeout)."""
     e = dict(os.environ)
-    e["MOS_VERIF_PASSES"] = e.get("MOS_VERIF_PASSES", "500")
+    e["MOS_VERIF_PASSES"] = e.get("MOS_VERIF_PASSES", "1500")
     if env:
         e.update(env)
     try:
